@@ -42,6 +42,10 @@ SNIPPETS = [
     ("def f(x, hs):\n    hs[0] = None\n    return x\n", {('inplace', 'param')}),
     ("class M:\n    def forward(self, x):\n        if self.h0.dtype != x.dtype:\n            self.to(x.dtype)\n        return x\n", {('self_write', 'attr')}),
     ("class M:\n    def forward(self, x):\n        setattr(self, 'k', 1)\n        return x\n", {('self_write', 'attr')}),
+    # contiguous() / float() / double() return the receiver itself when nothing has to change: an in-place operation behind them reaches the argument
+    ("def f(g):\n    d = g[:, 0]\n    d = d.contiguous().mul_(0.25)\n    return d\n", {('inplace', 'param')}),
+    ("def f(x):\n    y = x.float()\n    y += 1\n    return y\n", {('inplace', 'param')}),
+    ("def f(x):\n    y = x.clone().mul_(2)\n    return y\n", {('inplace', 'fresh')}),
 ]
 
 def analyse_snippet(src):
@@ -107,9 +111,9 @@ def make_args(kind, m, r, dt, p=None):
     C = 3 if kind.startswith('scat') else int(r.integers(1, 3))
     g = torch.Generator().manual_seed(int(r.integers(1 << 30)))
     rnd = lambda shape: torch.randn(shape, generator=g, dtype=torch.float64).to(dt)
-    if kind in ('dwt2', 'dtcwt', 'scat1', 'scat2'): return rnd((2, C, H, W))
+    if kind in ('dwt2', 'dtcwt', 'scat1', 'scat2'): return rnd((int(r.integers(1, 4)), C, H, W))
     if kind == 'swt': return rnd((1, C, 16, 24))
-    if kind == 'dwt1': return rnd((2, C, W))
+    if kind == 'dwt1': return rnd((int(r.integers(1, 4)), C, W))
     if kind == 'idwt1':
         yl, yh = DWT1DForward(J=2, wave=p['wave'], mode=p['mode']).double()(torch.zeros(1, C, 4 * W, dtype=torch.float64))
         return (rnd(tuple(yl.shape)), [rnd(tuple(h.shape)) for h in yh])
@@ -159,13 +163,6 @@ def strat_key(cfg):
     if cfg['kind'] == 'crosstalk': return 'crosstalk/%d/%s' % (cfg['S'], cfg['mode'])
     return cfg['kind'] + '/' + str(cfg['seed'] % 7)
 
-
-def fresh_import():
-    """forget the library's modules: the next import builds every module-level object (caches, tables, ...) anew - the state of a new process"""
-    import importlib
-    for k in [k for k in sys.modules if k == 'pytorch_wavelets' or k.startswith('pytorch_wavelets.')]:
-        del sys.modules[k]
-    importlib.invalidate_caches()
 
 XT_WAVES = ['haar', 'db2', 'db3', 'db4', 'sym4', 'coif1', 'bior1.3', 'rbio1.3']
 def xt_pool(S, mode):
@@ -232,6 +229,9 @@ def crosstalk_run(cfg):
     finally:
         fresh_import()
 
+class BackwardMutation(Exception):
+    pass
+
 def call(m, kind, args, dt, grad):
     """result tensors, or ('raised', exception type) - an exception is an outcome like any other and must be reproducible"""
     try:
@@ -244,6 +244,20 @@ def call_(m, kind, args, dt, grad):
     if grad:
         for t in flatten(args): t.requires_grad_(True)
         out = m2(args)
+        outs = [t for t in flatten(out) if t.numel() and t.requires_grad]
+        if outs:
+            # the backward pass is part of the call: explicit dense cotangents, two passes with the SAME cotangents
+            gg = torch.Generator().manual_seed(12345)
+            gs = [torch.randn(tuple(t.shape), generator=gg, dtype=torch.float64).to(t.dtype) for t in outs]
+            keep = [g.clone() for g in gs]
+            ins = [t for t in flatten(args)]
+            g1 = torch.autograd.grad(outs, ins, gs, retain_graph=True, allow_unused=True)
+            if not all(torch.equal(a, b) for a, b in zip(gs, keep)):
+                raise BackwardMutation('the backward pass modified the cotangent tensor passed to it')
+            g2 = torch.autograd.grad(outs, ins, gs, allow_unused=True)
+            for a, b in zip(g1, g2):
+                if (a is None) != (b is None) or (a is not None and not torch.equal(a, b)):
+                    raise BackwardMutation('two backward passes with the same cotangent give different gradients')
         for t in flatten(args): t.requires_grad_(False)
         return [t.detach() for t in flatten(out)]
     with torch.no_grad():
@@ -302,6 +316,8 @@ def oracle_run(cfg):
             if not same(out, seq[i % len(jobs)]):
                 return dict(detail='%s(%s): result under %d threads differs from the sequential result' % (jobs[i % len(jobs)][0], jobs[i % len(jobs)][1], cfg['nthreads']))
         return None
+    except BackwardMutation as e:
+        return dict(detail=str(e))
     except Exception as e:
         import traceback
         return dict(error='%s: %s' % (type(e).__name__, str(e)[:200]), trace=traceback.format_exc()[-600:])
